@@ -3,7 +3,7 @@ runtime objects that only ever appears under quantifiers and as the first argume
 (no function returns O: the O-part of every query is in the EPR fragment)."""
 import z3
 from pyvc.dsl import REG, spec_function
-from pyvc.core import S_bool, Sym, V, O, K, IntS, BoolS, fresh, CLASSES, typeof, sub, NONE
+from pyvc.core import S_bool, S_val, Sym, V, O, K, IntS, BoolS, fresh, CLASSES, typeof, sub, NONE
 from pyvc import seqs as Q
 from pyvc.values import as_seq, box, isa
 
@@ -256,3 +256,25 @@ def same_literal_key(ex, st, key, kv):
     """the (val, type) key of the fast path denotes the literal of KnownValue kv"""
     k = unS(box(key, st))
     return S_bool(same_lit_f(Q.at(k, 0), fld("val")(box(kv, st))))
+
+
+@spec_function()
+def super_can_assign(ex, st, self_, other, ctx):
+    """the result of the base-class Value.can_assign for these arguments (the shared functional symbol)"""
+    f = uf("fn:can_assign", V, V, V, V)
+    return S_val(f(box(self_, st), box(other, st), box(ctx, st)))
+
+
+def literal_axioms(used):
+    ax = []
+    if "KnownValue" in used:
+        from pyvc.core import unB
+        x, y = z3.Const("kx", V), z3.Const("ky", V)
+        se = uf("fn:pyanalyze.safe.safe_equals", V, V, V)
+        ty = uf("py_type", V, V)
+        # same_lit is exactly "the same object, or equal (==) with the same type"
+        ax.append(z3.ForAll([x, y], z3.Implies(z3.Or(x == y, z3.And(unB(se(x, y)), ty(x) == ty(y))), same_lit_f(x, y)), patterns=[se(x, y)]))
+    return ax
+
+
+REG.axiom_hooks.append(literal_axioms)
